@@ -965,6 +965,9 @@ func run(c *lib.Ctx) {
 		}
 		c.Violation(jb.idx, sh, w, "[%s] %s | minimal history: %s", jb.stratum, mf.Detail, lib.JSON(mp))
 	})
+	if len(reported) > 0 {
+		c.Extra("violation_shapes_of_minimal_witnesses", reported)
+	}
 	c.RequireEvents("reads", 10000)
 	c.RequireEvents("trash_calls", 100)
 	c.RequireEvents("del_mvcc_top", 50)
